@@ -35,6 +35,12 @@ COQ_TRUSTED_BASE = [
 ]
 
 
+class TreeBreaks(Exception):
+    """The harness does not build against, or crashes on, the tree under check: not an infrastructure error but a
+    broken tie -- the code changed under the accessors/drivers, or it panicked where the drivers call it unprotected.
+    Reported as VIOLATION ... no-failing-input-found with the compiler / panic text in the replay."""
+
+
 class Abort(Exception):
     pass
 
@@ -94,7 +100,7 @@ class Ctx:
             p = sh(["go", "build", "-tags", "verif", "-overlay", ov, "-o", exe, "./internal/verifharness"],
                    cwd=REPO, env=GOENV, timeout=900)
             if p.returncode != 0:
-                raise Abort("harness build failed against /repo's working tree:\n" + p.stdout[-3000:] + p.stderr[-6000:])
+                raise TreeBreaks("the harness (drivers + add-only accessors overlaid on the tree under check) does not build against this tree:\n" + p.stdout[-3000:] + p.stderr[-6000:])
             # each check works on its own copy so that parallel checks do not race on the binary
             mine = os.path.join(BUILD, "verifharness." + self.pid)
             shutil.copy2(exe, mine)
@@ -118,7 +124,7 @@ class Ctx:
         if p.returncode == 3:
             allow_fail = True   # watchdog fired: the oracle line emitted before exit carries the failing input
         if p.returncode != 0 and not allow_fail:
-            raise Abort("harness %s failed (%d):\n%s" % (sub, p.returncode, p.stderr[-6000:]))
+            raise TreeBreaks("harness %s ended abnormally (exit %d) on this tree:\n%s" % (sub, p.returncode, p.stderr[-6000:]))
         lines = []
         for ln in p.stdout.splitlines():
             ln = ln.strip()
@@ -362,6 +368,15 @@ def main():
             ctx.notes.append("make failed: " + ctx.make_log[-1500:])
         mod.run(ctx)
         return ctx.finish()
+    except TreeBreaks as e:
+        msg = " ".join(str(e).split())
+        ctx.oblige("harness:builds_and_runs_to_completion_on_the_tree", False, msg[:1500])
+        ctx.broken.append("tie to the source broken: " + msg[:700])
+        try:
+            return ctx.finish()
+        except Exception as e2:  # finishing needs nothing from the cut-short run, but never hide the verdict
+            print("VIOLATION property=%s replay=%s no-failing-input-found" % (a.pid, "(none: " + str(e2)[:200] + ")"))
+            return 1
     except Abort as e:
         print("ERROR: " + str(e), file=sys.stderr)
         return 2
